@@ -10,6 +10,7 @@ import (
 
 	"github.com/gmrtd/gmrtd/activeauth"
 	"github.com/gmrtd/gmrtd/document"
+	"github.com/gmrtd/gmrtd/verifier"
 
 	"verif/internal/e2e"
 	"verif/internal/perso"
@@ -21,7 +22,7 @@ import (
 
 func init() {
 	vc.Register(&vc.Check{ID: "C07", Level: "exploration", Run: run, Replay: replay, QuickSec: 170, ThoroSec: 1500,
-		Rule: "(1) activeauth.ValidateActiveAuthSignature on responses produced by the independent signer: RSA moduli 1024/2048/3072/4096 and 1031/1279/2041 bits (bit length not a multiple of 8) x 5 trailers (SHA-1/224/256/384/512) x chip-chosen M1 {00.., FF.., pattern, ending ..BC, ending ..CC} x challenges {00.., FF.., pattern}; ECDSA on 11 curves x {plain r||s, DER} x challenges, hash by key size => accepted. For genuine cases: every single-bit flip of the signature (quick: all bits for 1024/2048-bit RSA and all EC, every 5th bit above), every single-bit flip of the challenge, the same response under another key of the same size/curve => rejected (invalid by construction). (2) challenge plumbing end to end: Reader.WithAAChallenge(c) => the chip saw exactly c and the evidence nonce is c; Verifier.WithAAChallenge(c') hard-fails iff c' != c for c'=c and all 64 one-bit neighbours, also when the evidence is otherwise unverifiable (algorithm changed, signature corrupted / oversize, DG15 removed), AA over RSA and ECDSA. distinct_nontrivial = distinct (key, trailer/format, M1 class, challenge, mutation class, verdict)",
+		Rule:   "(1) activeauth.ValidateActiveAuthSignature on responses produced by the independent signer: RSA moduli 1024/2048/3072/4096 and 1031/1279/2041 bits (bit length not a multiple of 8) x 5 trailers (SHA-1/224/256/384/512) x chip-chosen M1 {00.., FF.., pattern, ending ..BC, ending ..CC} x challenges {00.., FF.., pattern}; ECDSA on 11 curves x {plain r||s, DER} x challenges, hash by key size => accepted. For genuine cases: every single-bit flip of the signature (quick: all bits for 1024/2048-bit RSA and all EC, every 5th bit above), every single-bit flip of the challenge, the same response under another key of the same size/curve => rejected (invalid by construction). (2) challenge plumbing end to end: Reader.WithAAChallenge(c) => the chip saw exactly c and the evidence nonce is c; Verifier.WithAAChallenge(c') hard-fails iff c' != c for c'=c and all 64 one-bit neighbours, on every call of every history of up to 3 Verify calls {matching evidence, evidence with another nonce, unparseable} on ONE armed Verifier, also when the evidence is otherwise unverifiable (algorithm changed, signature corrupted / oversize, DG15 removed), AA over RSA and ECDSA. distinct_nontrivial = distinct (key, trailer/format, M1 class, challenge, mutation class, verdict)",
 		Assume: []string{"independent ISO/IEC 9796-2 scheme 1 signer and deterministic ECDSA signer of refchip/refpki (self-tested against crypto/rsa, crypto/ecdsa)", "for moduli whose bit length is not a multiple of 8 only the byte-aligned representative is demanded to verify", "signature forgery not searched; ECDSA malleability (r, n-s) is a valid signature and not generated"}})
 }
 
@@ -364,7 +365,7 @@ ec:
 	}
 plumbing:
 	sec4 := "challenge plumbing: reader -> chip -> evidence -> offline verifier"
-	c.SecBound(sec4, "AA over {RSA-2048/34CC, ECDSA brainpoolP256r1, ECDSA P-521 DER} x access {BAC, PACE-GM} x 3 challenges: chip-side challenge, evidence nonce, verifier with c and all 64 one-bit neighbours")
+	c.SecBound(sec4, "AA over {RSA-2048/34CC, ECDSA brainpoolP256r1, ECDSA P-521 DER} x access {BAC, PACE-GM} x 3 challenges: chip-side challenge, evidence nonce, verifier with c and all 64 one-bit neighbours, 39 call histories on one armed Verifier")
 	for _, aa := range []perso.AASpec{{RSABits: 2048, Trailer: "34CC"}, {Curve: "brainpoolP256r1"}, {Curve: "P-521", DER: true}} {
 		for _, pace := range []bool{false, true} {
 			for _, ch := range chals {
@@ -420,6 +421,54 @@ plumbing:
 						c.Violation(sec4, "plumbing/verifier-accepts-other-challenge", fmt.Sprintf("offline verification with challenge %x (recorded %x) does not hard-fail", cp, cval), rec, nil)
 					}
 					c.Outcome(sec4, map[bool]string{true: "hard-error", false: "verified"}[hard])
+				}
+				// ONE Verifier armed with the caller's challenge and used for a history of Verify calls: the binding
+				// must hold on every call, whatever was verified (or failed to parse) before
+				{
+					ev := r.Doc.Session.ActiveAuthResult.Evidence
+					orig := ev.Nonce
+					ev.Nonce = append(bytes.Clone(orig[:7]), orig[7]^1)
+					blobD, derr := r.Doc.ToCbor()
+					ev.Nonce = orig
+					pool, perr := e2e.Pool(p.Store)
+					if derr != nil || perr != nil {
+						c.HarnessError("verifier history setup: %v %v", derr, perr)
+					} else {
+						blobs := map[byte][]byte{'M': blob, 'D': blobD, 'X': {0xFF, 0x00}}
+						var seqs []string
+						for _, a := range "MDX" {
+							seqs = append(seqs, string(a))
+							for _, b := range "MDX" {
+								seqs = append(seqs, string(a)+string(b))
+								for _, d := range "MDX" {
+									seqs = append(seqs, string(a)+string(b)+string(d))
+								}
+							}
+						}
+						for _, sq := range seqs {
+							vf := verifier.NewVerifier(pool)
+							if _, err := vf.WithAAChallenge(cval); err != nil {
+								c.HarnessError("WithAAChallenge: %v", err)
+								break
+							}
+							for i := 0; i < len(sq); i++ {
+								var d *document.DocumentEx
+								var verr error
+								pv, _ := vc.Guard(func() { d, verr = vf.Verify(blobs[sq[i]]) })
+								c.Eval(1)
+								hard := verr != nil || d == nil
+								switch {
+								case pv != nil:
+									c.Violation(sec4, "plumbing/verifier-panic", fmt.Sprint(pv), rec, nil)
+								case sq[i] == 'M' && hard:
+									c.Violation(sec4, "plumbing/reused-verifier-rejects-matching-challenge", fmt.Sprintf("call %d of history %s on one Verifier: matching evidence fails: %v", i+1, sq, verr), rec, nil)
+								case sq[i] != 'M' && !hard:
+									c.Violation(sec4, "plumbing/reused-verifier-accepts-other-nonce", fmt.Sprintf("call %d of history %s on one Verifier armed with %x: evidence with another nonce does not hard-fail", i+1, sq, cval), rec, nil)
+								}
+								c.Outcome(sec4, "history:"+string(sq[i])+map[bool]string{true: ":hard-error", false: ":verified"}[hard])
+							}
+						}
+					}
 				}
 				// the hard failure on a differing nonce must not depend on the evidence being otherwise verifiable
 				ev := r.Doc.Session.ActiveAuthResult.Evidence
